@@ -643,6 +643,10 @@ func (dr *dirRepo) indexSave(locked bool) error {
 	// force minimal settings on the index
 	dr.index.SchemaVersion = 2
 	dr.index.MediaType = types.MediaTypeOCI1ManifestList
+	if dr.index.Manifests == nil {
+		// the image-spec requires an array, an empty index is not written as null
+		dr.index.Manifests = []types.Descriptor{}
+	}
 	fh, err := os.CreateTemp(dr.path, "index.json.*")
 	if err != nil {
 		return err
